@@ -345,6 +345,13 @@ func drawInScript(rt *rapid.T, frames [][]byte) inScript {
 		}
 	}
 	cutStream(rt, stream, st, &sc)
+	// a read may legitimately return no bytes and no error (io.Reader allows it: an empty record, a zero-length
+	// write on the other side of a pipe); it is not the end of anything
+	for k := gen.Pick(rt, "empty_reads", 4); k > 0 && len(sc.chunks) > 0; k-- {
+		at := rapid.IntRange(0, len(sc.chunks)).Draw(rt, "empty_read_at")
+		sc.chunks = append(sc.chunks[:at], append([][]byte{{}}, sc.chunks[at:]...)...)
+		sc.desc = append(sc.desc, fmt.Sprintf("empty read #%d", at))
+	}
 	sc.consumer = gen.Pick(rt, "consumer", 3)
 	sc.procs = []int{1, 2, 4, 16}[gen.Pick(rt, "gomaxprocs", 4)]
 	sc.desc = append(sc.desc, fmt.Sprintf("%d frames, %d bytes, %d read chunks, consumer=%d, GOMAXPROCS=%d", len(frames), len(stream), len(sc.chunks), sc.consumer, sc.procs))
